@@ -149,7 +149,7 @@ def _interp(t, slots, depth):
     raise KeyError(k)
 
 
-def _stackfx_cells(ctx, code, hname, fn, m, oblkey):
+def _stackfx_cells(ctx, code, hname, fn, m, oblkey, small=False):
     """the handler evaluated on stacks built from a pool of operands (script numbers around the byte boundaries, non-minimal and negative-zero
     encodings) at the required depth, one deeper, and one too shallow; the resulting stack is compared with the consensus effect read as a
     function.  Bounded in the operand values; None when the handler or the effect is outside what can be evaluated (hash opcodes)."""
@@ -160,6 +160,8 @@ def _stackfx_cells(ctx, code, hname, fn, m, oblkey):
         return None
     nums = [-2, -1, 0, 1, 2, 3, 127, 128, -128, 255, 256, -256, 32767, 2 ** 31 - 1, -(2 ** 31 - 1)]
     pool = [_enc(n) for n in nums] + [b"\x00", b"\x80", b"\x05\x00", b"\x05\x80"]
+    if small:
+        pool = [_enc(n) for n in (0, 1, -1, 2, 300)] + [b"\x80", b"\x05\x00"]
     uses_numbers = any("dec" in repr(t) for t in pushed)
     if depth <= 2:
         choices = pool if uses_numbers else [b"\x01", b"\x02\x03", b""]
@@ -1345,7 +1347,121 @@ def c07_20(ctx):
     return out
 
 
+def c07_21(ctx):
+    """script number codec evaluated against the consensus definition (CScriptNum): encode_num(n) is the minimal little-endian sign-magnitude
+    string for every |n| <= 260 and for 2^k - 1, 2^k, 2^k + 1 (both signs) up to 2^32, and decode_num inverts it; decode_num on every string of
+    0 and 1 bytes and on 2-, 3- and 4-byte strings built from the boundary bytes {00, 01, 7f, 80, 81, fe, ff} (thorough tier: every 2-byte
+    string) gives the consensus value, negative zero and non-minimal spellings included"""
+    from sa.cells import Evaluator, Raised, Undecided
+    import itertools
+    m = ctx.repo.module("op")
+    fe, fd = m.functions.get("encode_num"), m.functions.get("decode_num")
+    if fe is None or fd is None:
+        raise AnalysisError("encode_num / decode_num vanished")
+
+    def ref_enc(n):
+        if n == 0:
+            return b""
+        a, out = abs(n), bytearray()
+        while a:
+            out.append(a & 255)
+            a >>= 8
+        if out[-1] & 0x80:
+            out.append(0x80 if n < 0 else 0)
+        elif n < 0:
+            out[-1] |= 0x80
+        return bytes(out)
+
+    def ref_dec(b):
+        if not b:
+            return 0
+        v = int.from_bytes(b, "little")
+        if b[-1] & 0x80:
+            return -(v & ~(0x80 << (8 * (len(b) - 1))))
+        return v
+    nums = set(range(-260, 261)) | {384, 1000, -1000, 32767, 32768, -32768, 65535, 8388607, 8388608, -8388608}
+    for k in range(7, 33):
+        for d in (-1, 0, 1):
+            nums |= {(1 << k) + d, -((1 << k) + d)}
+    out = []
+    try:
+        bad = None
+        for n in sorted(nums):
+            ctx.count("cells")
+            try:
+                r = Evaluator(ctx.repo).call("op:encode_num", [n])
+            except Raised as x:
+                bad = "encode_num(%d) raises %s" % (n, x.name)
+                break
+            if r != ref_enc(n):
+                bad = "encode_num(%d) is %s, the minimal script number is %s" % (n, r.hex() if isinstance(r, bytes) else r, ref_enc(n).hex() or "''")
+                break
+            try:
+                back = Evaluator(ctx.repo).call("op:decode_num", [ref_enc(n)])
+            except Raised as x:
+                bad = "decode_num(%s) raises %s" % (ref_enc(n).hex(), x.name)
+                break
+            if back != n:
+                bad = "decode_num(%s) is %r, the number is %d" % (ref_enc(n).hex() or "''", back, n)
+                break
+        out.append(ctx.bad("op:encode_num", bad, fe, m, key="num-codec:encode") if bad else
+                   ctx.ok("op:encode_num", "%d integers (|n| <= 260, 2^k and neighbours up to 2^32, both signs) encode minimally and decode back" % len(nums), fe, m, key="num-codec:encode"))
+        bb = [0x00, 0x01, 0x7F, 0x80, 0x81, 0xFE, 0xFF]
+        quick = getattr(ctx, "tier", "quick") != "thorough"
+        strings = [b""] + [bytes([i]) for i in range(256)]
+        strings += [bytes(t) for t in (itertools.product(bb, repeat=2) if quick else itertools.product(range(256), repeat=2))]
+        strings += [bytes(t) for t in itertools.product(bb, repeat=3)] + [bytes(t) for t in itertools.product((0x00, 0x7F, 0x80, 0xFF), repeat=4)]
+        bad = None
+        for b in strings:
+            ctx.count("cells")
+            try:
+                r = Evaluator(ctx.repo).call("op:decode_num", [b])
+            except Raised as x:
+                bad = "decode_num(%s) raises %s" % (b.hex() or "''", x.name)
+                break
+            if r != ref_dec(b) or isinstance(r, bool):
+                bad = "decode_num(%s) is %r, consensus reads %d" % (b.hex() or "''", r, ref_dec(b))
+                break
+        out.append(ctx.bad("op:decode_num", bad, fd, m, key="num-codec:decode") if bad else
+                   ctx.ok("op:decode_num", "%d byte strings of 0..4 bytes decode to the consensus value (negative zero and padded spellings included)" % len(strings), fd, m,
+                          key="num-codec:decode"))
+    except Undecided as u:
+        return [ctx.err("op:encode_num", "number codec not evaluable: %s" % u, fe, m)]
+    return out
+
+
+
+def c07_22(ctx):
+    """every fixed-effect opcode evaluated as well as executed symbolically: the symbolic stack executor of C07.1-C07.3 reads a handler
+    statement by statement and does not model evaluation order inside one expression (`f(stack.pop()) or f(stack.pop())` pops once when the
+    first operand decides), so each handler is also run on stacks built from a small operand pool (0, 1, -1, 2, 300, negative zero, a padded 5)
+    at its depth and one deeper, and the resulting stack compared with the consensus effect.  Bounded in the operand values"""
+    m, node, table = table_names(ctx.repo, "op", "OP_CODE_FUNCTIONS")
+    out = []
+    n_ok = 0
+    for code in STACK_CODES + ARITH_CODES:
+        if code not in table or table[code] not in m.functions:
+            continue
+        fn = m.functions[table[code]]
+        r = _stackfx_cells(ctx, code, table[code], fn, m, "fx-eval", small=True)
+        if r is None:
+            continue
+        if r.status == "violation" and any(x.status == "violation" for x in _stackfx(ctx, [code], "fx")):
+            continue   # the same deviation is already reported (or recorded as a known finding) by the symbolic executor under C07.1-C07.3
+        if r.status == "ok":
+            n_ok += 1
+        else:
+            out.append(r)
+    if n_ok < 20 and not out:
+        raise AnalysisError("fixed-effect opcodes: only %d handlers could be evaluated" % n_ok)
+    out.append(ctx.ok("op:OP_CODE_FUNCTIONS", "%d fixed-effect handlers evaluated on small operand stacks agree with the consensus effect" % n_ok, node, m, key="fx-eval"))
+    return out
+
+
+
 OBLIGATIONS = [
+    ("C07.22", "CELLS fixed-effect opcodes evaluated", c07_22),
+    ("C07.21", "CELLS number codec", c07_21),
     ("C07.19", "CELLS pick/roll (bounded)", c07_19),
     ("C07.20", "CELLS truth of long elements", c07_20),
     ("C07.18", "SHARED", c07_18),
